@@ -1105,9 +1105,9 @@ impl Property for C10 {
     }
     fn runs_for(&self, tier: &str) -> usize {
         if tier == "thorough" {
-            300_000
+            1_000_000
         } else {
-            10_000
+            30_000
         }
     }
     fn run(&self, seed: u64, index: usize, tier: &str) -> Result<RunReport, String> {
